@@ -59,6 +59,10 @@ Eval(e, v) ==
                          THEN RPowInt(Eval(e.a[1], v), RToInt(e.a[2].v))
                          ELSE RPow(Eval(e.a[1], v), Eval(e.a[2], v))
     [] e.op \in Unary -> Fn(e.op, Eval(e.a[1], v))
+    [] e.op = "kn"    -> RKn(RFromInt(e.n), Eval(e.a[1], v))      \* modified Bessel function K_n, integer order
+
+\* d/dx K_n(x) = -(K_{n-1}(x) + K_{n+1}(x)) / 2, with K_{-m} = K_m
+DKn(n, x) == RNeg(RDiv(RAdd(RKn(RFromInt(IF n >= 1 THEN n - 1 ELSE 1 - n), x), RKn(RFromInt(n + 1), x)), "2"))
 
 Zeros(n) == [j \in 1..n |-> "0"]
 Unit(n, i) == [j \in 1..n |-> IF j = i THEN "1" ELSE "0"]
@@ -81,6 +85,7 @@ Grad(e, v) ==
                             ELSE IF IsConst(e.a[1]) THEN RScaleSeq(RMul(RPow(x, y), RLog(x)), Grad(e.a[2], v))
                             ELSE RAddSeq(RScaleSeq(dx, Grad(e.a[1], v)), RScaleSeq(RMul(RPow(x, y), RLog(x)), Grad(e.a[2], v)))
     [] e.op \in Unary -> RScaleSeq(DFn(e.op, Eval(e.a[1], v)), Grad(e.a[1], v))
+    [] e.op = "kn"    -> RScaleSeq(DKn(e.n, Eval(e.a[1], v)), Grad(e.a[1], v))
 
 \* ------------------------------------------------------------------ rounding scales
 \* the same recursions with absolute values at every node: upper bounds on the magnitude of the terms that
@@ -91,7 +96,7 @@ AVal(e, v) ==
     [] e.op = "const" -> RAbs(e.v)
     [] e.op \in {"add", "sub"} -> RAdd(AVal(e.a[1], v), AVal(e.a[2], v))
     [] e.op \in {"mul", "div", "pow"} -> RAdd(RAbs(Eval(e, v)), RAdd(AVal(e.a[1], v), AVal(e.a[2], v)))
-    [] e.op \in Unary -> RAdd(RAbs(Eval(e, v)), AVal(e.a[1], v))
+    [] e.op \in Unary \cup {"kn"} -> RAdd(RAbs(Eval(e, v)), AVal(e.a[1], v))
 
 RECURSIVE AGrad(_, _)
 AGrad(e, v) ==
@@ -107,6 +112,7 @@ AGrad(e, v) ==
                              dy == IF IsConst(e.a[2]) THEN "0" ELSE RAbs(RMul(RPow(x, y), RLog(x)))
                          IN RAddSeq(RScaleSeq(dx, AGrad(e.a[1], v)), RScaleSeq(dy, AGrad(e.a[2], v)))
     [] e.op \in Unary -> RScaleSeq(RAbs(DFn(e.op, Eval(e.a[1], v))), AGrad(e.a[1], v))
+    [] e.op = "kn"    -> RScaleSeq(RAbs(DKn(e.n, Eval(e.a[1], v))), AGrad(e.a[1], v))
 
 \* ------------------------------------------------------------------ complex expressions
 \* leaves: [op |-> "cvar", re |-> i, im |-> j]  (indices of real leaves; 0 = that part is absent/zero)
